@@ -198,7 +198,15 @@ def validate_rows(chk, module, row_files, constants=None, *, name="rows", timeou
     mism, total_rows, total_bad = [], 0, 0
 
     def one(f):
-        return f, tlc.run(module, cfg, chk.workdir, workers=1, env={"VERIF_ROWS": f}, timeout=timeout, heap=heap)
+        res = tlc.run(module, cfg, chk.workdir, workers=1, env={"VERIF_ROWS": f}, timeout=timeout, heap=heap)
+        res.printed()
+        if getattr(res, "unparsed", 0):
+            # TLC's own progress / warning lines can land inside a wrapped PrintT value: the run is deterministic, so
+            # it is simply repeated once; a second failure is a machinery failure (reported with the offending text)
+            with open(os.path.join(chk.workdir, "unparsed_" + os.path.basename(f) + ".txt"), "w") as g:
+                g.write("\n----\n".join(getattr(res, "unparsed_text", [])))
+            res = tlc.run(module, cfg, chk.workdir, workers=1, env={"VERIF_ROWS": f}, timeout=timeout, heap=heap)
+        return f, res
 
     with ThreadPoolExecutor(max_workers=tlc.NCPU) as ex:
         results = list(ex.map(one, files))
@@ -220,7 +228,8 @@ def validate_rows(chk, module, row_files, constants=None, *, name="rows", timeou
         if done is None:
             raise MachineryFailure(f"row validator {module} did not finish on {f}:\n{res.tail(30)}")
         if getattr(res, "unparsed", 0):
-            raise MachineryFailure(f"row validator {module}: {res.unparsed} printed values could not be read back")
+            raise MachineryFailure(f"row validator {module}: {res.unparsed} printed values could not be read back:\n"
+                                   + "\n".join(getattr(res, "unparsed_text", []))[:2000])
         total_rows += done[1]
         total_bad += done[2]
         agg_states += res.distinct
